@@ -68,3 +68,22 @@ func init() {
 	register("C12", f)
 	register("C05", f)
 }
+
+// The dispatcher decides WHICH work-groups of the grid are ever mapped and when the kernel counts as
+// complete: C09's dispatcher scenarios (real Dispatcher + resource pool under back-pressure,
+// concurrent kernels, all three algorithms) are evaluated as oracles of C08 as well — "every
+// work-item of the grid is executed exactly once" fails when a work-group is never mapped, mapped
+// twice, or the kernel is reported complete before its last work-group was sent.
+func init() {
+	register("C08", func(r *Run, rng *Rng, _ string) {
+		r.OracleOnly = true
+		defer func() { r.OracleOnly = false }()
+		n := 500
+		if r.Tier == "thorough" {
+			n = 5000
+		}
+		for i := 0; i < n; i++ {
+			c09CPCase(r, rng, []string{"rr", "rr", "greedy", "partition"}[rng.Intn(4)])
+		}
+	})
+}
